@@ -147,12 +147,17 @@ def run_model(ops, timeout=300):
 
 
 def run_oracle(prop, trace, timeout=600):
-    rc, out, err = run(limited([DRIVER, "oracle", prop]), inp=trace, timeout=timeout)
+    """`prop` may name several oracles joined by '+': a case passes if every one passes."""
     verdicts = {}
-    for l in out.splitlines():
-        m = re.match(r"case (\d+) (\S+)(.*)", l)
-        if m:
-            verdicts[int(m.group(1))] = (m.group(2), m.group(3).strip())
+    for one in prop.split("+"):
+        rc, out, err = run(limited([DRIVER, "oracle", one]), inp=trace, timeout=timeout)
+        for l in out.splitlines():
+            m = re.match(r"case (\d+) (\S+)(.*)", l)
+            if m:
+                i = int(m.group(1))
+                v = (m.group(2), (one + " " + m.group(3)).strip())
+                if i not in verdicts or verdicts[i][0] in ("ok", "SKIP"):
+                    verdicts[i] = v
     return verdicts
 
 
